@@ -491,6 +491,24 @@ func (g *c10Gen) tgt(allowEmpty bool) []byte {
 func (g *c10Gen) itSteps(n int) []interface{} {
 	r := g.r.Rng
 	out := []interface{}{}
+	if r.Intn(3) == 0 {
+		// point lookups in the middle of a scan (kvgraph's adjacency reads do exactly this: scan the
+		// index, fetch each neighbour with it.Get): position, look a key up — present or absent —
+		// and continue; the lookup must not move the scan
+		if r.Intn(3) == 0 {
+			out = append(out, []interface{}{"rseek", c10hex(g.tgt(false))})
+		} else {
+			out = append(out, []interface{}{"seek", c10hex(g.tgt(true))})
+		}
+		for j := 0; j < 3; j++ {
+			k := g.key()
+			if r.Intn(3) == 0 {
+				k = g.existing()
+			}
+			out = append(out, []interface{}{"get", c10hex(k)}, []interface{}{"next"})
+		}
+		g.r.Count("it:scan-get-next")
+	}
 	for i := 0; i < n; i++ {
 		switch x := r.Intn(12); {
 		case x < 3:
